@@ -35,7 +35,7 @@ def load_mutants():
             if os.path.exists(meta) and os.path.exists(patch):
                 m = json.load(open(meta))
                 ms.append({'id': 'seeded/' + d, 'properties': m.get('checks') or [m['property']], 'patch': patch,
-                           'note': m.get('needs', '')})
+                           'note': m.get('needs', ''), 'out_of_reach': m.get('out_of_reach')})
     return ms
 
 
@@ -62,7 +62,7 @@ def apply_mutant(m, d):
 
 
 def run_one(m, tier, with_tests):
-    res = {'id': m['id'], 'properties': m['properties'], 'note': m.get('note', ''), 'checks': {}}
+    res = {'id': m['id'], 'properties': m['properties'], 'note': m.get('note', ''), 'checks': {}, 'out_of_reach': m.get('out_of_reach')}
     d = make_copy(m['id'])
     try:
         try:
@@ -111,8 +111,15 @@ def main():
                           for p, c in r['checks'].items())
             print('%-44s %s %s %s' % (r['id'], st, r.get('error', ''),
                                       '' if r.get('suite_passes', True) else '[suite FAILS with this mutant]'), flush=True)
-    caught = sum(1 for r in results if any(c['caught'] for c in r['checks'].values()))
-    print('caught %d of %d' % (caught, len(results)))
+    inreach = [r for r in results if not r.get('out_of_reach')]
+    caught = sum(1 for r in inreach if any(c['caught'] for c in r['checks'].values()))
+    print('caught %d of %d' % (caught, len(inreach)))
+    oor = [r for r in results if r.get('out_of_reach')]
+    if oor:
+        # changes whose demonstration needs something the property does not speak about (recorded with the reason in
+        # the seed's meta.json and in DESIGN.md section 10): run all the same, a check that fires on one is reported
+        print('%d further changes are outside what the property states: %s' % (len(oor), ', '.join(
+            '%s%s' % (r['id'], ' (fires all the same)' if any(c['caught'] for c in r['checks'].values()) else '') for r in oor)))
     if not a.only:
         json.dump({'tier': a.tier, 'results': results}, open(a.out, 'w'), indent=1)
     return 0
